@@ -528,3 +528,97 @@ m('C02','pid-rewrite-any-codec',C,
 m('C02','marker-any-layer',R,
   '\tsetMarker := flags.Sid == layer.sid && flags.End && !flags.Marker','\tsetMarker := flags.End && !flags.Marker',
   'R2.4','marker only at the end','marker set on lower spatial layers')
+# ---------------- C01 ----------------
+m('C01','drop-any-seqno',PM,
+  '\tif seqno != m.next {\n\t\treturn false\n\t}\n\n\tif len(m.entries) == 0 {\n\t\tm.entries = []entry{',
+  '\tif len(m.entries) == 0 {\n\t\tm.entries = []entry{',
+  'R1.2','Drop: store to m.delta','out-of-order packet dropped: offsets of forwarded packets change retroactively',quick=True)
+m('C01','drop-window',PM,
+  '\tif seqno != m.next {\n\t\treturn false\n\t}\n\n\tif len(m.entries) == 0 {\n\t\tm.entries = []entry{',
+  '\tif compare(m.next, seqno) > 0 {\n\t\treturn false\n\t}\n\n\tif len(m.entries) == 0 {\n\t\tm.entries = []entry{',
+  'R1.2','Drop: store to m.next','packets after a gap dropped: the gap is closed')
+m('C01','drop-delta-twice',PM,
+  '\tm.delta--\n\tm.next = seqno + 1\n\treturn true','\tm.delta -= 2\n\tm.next = seqno + 1\n\treturn true',
+  'R1.1','delta decreases by exactly one','one drop shifts later numbers by two: duplicate numbers')
+m('C01','drop-next-unchanged',PM,
+  '\tm.delta--\n\tm.next = seqno + 1\n\treturn true','\tm.delta--\n\treturn true',
+  'R1.1','next = seqno + 1','after a drop the same seqno is still expected')
+m('C01','drop-late-refusal',PM,
+  '\tm.nextPid = pid\n\n\tm.delta--','\tm.nextPid = pid\n\tif m.delta == 0x8000 {\n\t\treturn false\n\t}\n\n\tm.delta--',
+  'R1.1','a refusal changes nothing','map modified, then the drop refused')
+m('C01','drop-init-delta',PM,
+  '\t\t\t\tcount:    8192,\n\t\t\t\tdelta:    0,','\t\t\t\tcount:    8192,\n\t\t\t\tdelta:    1,',
+  'R1.3','the first Drop creates the identity interval','already forwarded packets are remapped after the first drop')
+m('C01','drop-init-first',PM,
+  '\t\t\t\tfirst:    seqno - 8192,','\t\t\t\tfirst:    seqno - 8191,',
+  'R1.3','the first Drop creates the identity interval','the identity interval covers the dropped packet itself')
+m('C01','map-inorder-identity',PM,
+  '\t\treturn true, seqno + m.delta, m.pidDelta','\t\treturn true, seqno, m.pidDelta',
+  'R1.3','Map: successful returns','in-order packets forwarded with the source number after a drop: a gap',quick=True)
+m('C01','map-inorder-off-by-one',PM,
+  '\t\treturn true, seqno + m.delta, m.pidDelta','\t\treturn true, seqno + m.delta + 1, m.pidDelta',
+  'R1.3','Map: successful returns','number handed out differs from the recorded mapping')
+m('C01','map-next-not-advanced',PM,
+  '\t\taddMapping(m, seqno, m.delta, m.pidDelta)\n\t\tm.next = seqno + 1','\t\taddMapping(m, seqno, m.delta, m.pidDelta)',
+  'R1.3','Map: every in-order packet advances next','next not advanced: a later Drop of an older packet shifts numbers already handed out')
+m('C01','map-next-plus-two',PM,
+  '\t\taddMapping(m, seqno, m.delta, m.pidDelta)\n\t\tm.next = seqno + 1','\t\taddMapping(m, seqno, m.delta, m.pidDelta)\n\t\tm.next = seqno + 2',
+  'R1.3','Map: every in-order packet advances next','next skips a number')
+m('C01','map-records-other',PM,
+  '\t\taddMapping(m, seqno, m.delta, m.pidDelta)','\t\taddMapping(m, seqno, m.delta+1, m.pidDelta)',
+  'R1.3','Map records the mapping it returns','retransmissions map to another number than the original')
+m('C01','addmapping-count',PM,
+  '\t\tcount:    seqno - f + 1,','\t\tcount:    seqno - f + 2,',
+  'R1.3','addMapping records','interval extends past the forwarded packet')
+m('C01','addmapping-extend',PM,
+  '\t\tm.entries[m.lastEntry].count = seqno - m.entries[i].first + 1','\t\tm.entries[m.lastEntry].count = seqno - m.entries[i].first',
+  'R1.3','addMapping records','the newest packet is not in its interval: NACKs for it are lost')
+m('C01','direct-upper-inclusive',PM,
+  '\t\t\tif compare(seqno, f+m.entries[i].count) < 0 {\n\t\t\t\treturn true,\n\t\t\t\t\tseqno + m.entries[i].delta,',
+  '\t\t\tif compare(seqno, f+m.entries[i].count) <= 0 {\n\t\t\t\treturn true,\n\t\t\t\t\tseqno + m.entries[i].delta,',
+  'R1.3','direct: the interval delta is applied only to members','the first dropped packet after an interval is mapped: a duplicate number')
+m('C01','direct-other-entry',PM,
+  '\t\t\t\treturn true,\n\t\t\t\t\tseqno + m.entries[i].delta,\n\t\t\t\t\tm.entries[i].pidDelta',
+  '\t\t\t\treturn true,\n\t\t\t\t\tseqno + m.entries[m.lastEntry].delta,\n\t\t\t\t\tm.entries[i].pidDelta',
+  'R1.3','direct: the interval delta is applied only to members','old packets mapped with the newest delta: duplicates')
+m('C01','reverse-wrong-sign',PM,
+  '\t\t\t\t\tseqno - m.entries[i].delta,','\t\t\t\t\tseqno + m.entries[i].delta,',
+  'R1.3','Reverse: successful returns','NACKed numbers resolved to the wrong source packet',quick=True)
+m('C01','reverse-domain-intervals',PM,
+  '\t\tf := m.entries[i].first + m.entries[i].delta','\t\tf := m.entries[i].first',
+  'R1.3','Reverse: the interval delta is applied only to members','Reverse searches source intervals with a target number')
+m('C01','reverse-identity-with-delta',PM,
+  '\tif m.entries == nil {\n\t\tif m.delta == 0 {\n\t\t\treturn true, seqno, 0\n\t\t}\n\t\treturn false, 0, 0\n\t}',
+  '\tif m.entries == nil {\n\t\treturn true, seqno, 0\n\t}',
+  'R1.3','Reverse: successful returns','identity reverse although numbers are shifted')
+m('C01','write-ignores-drop',R,
+  '\t\tok := down.packetmap.Drop(flags.Seqno, flags.Pid)\n\t\tif ok {\n\t\t\treturn 0, nil\n\t\t}',
+  '\t\tdown.packetmap.Drop(flags.Seqno, flags.Pid)',
+  'R1.4','a withheld packet is never forwarded','packet recorded as dropped is still forwarded: its number is reused',quick=True)
+m('C01','write-drop-inverted',R,
+  '\t\tok := down.packetmap.Drop(flags.Seqno, flags.Pid)\n\t\tif ok {\n\t\t\treturn 0, nil\n\t\t}',
+  '\t\tok := down.packetmap.Drop(flags.Seqno, flags.Pid)\n\t\tif !ok {\n\t\t\treturn 0, nil\n\t\t}',
+  'R1.4','a withheld packet is never forwarded','refused drops are withheld, recorded drops forwarded')
+m('C01','write-ignores-map-failure',R,
+  '\tif !ok {\n\t\treturn 0, nil\n\t}\n\n\tsetMarker','\t_ = ok\n\n\tsetMarker',
+  'R1.4','an unmappable packet is never forwarded','unmappable packet forwarded with number 0')
+m('C01','write-raw-seqno',R,
+  'codecs.RewritePacket(codec, buf2[:n], setMarker, newseqno, -piddelta)','codecs.RewritePacket(codec, buf2[:n], setMarker, flags.Seqno, -piddelta)',
+  'R1.4','the rewritten seqno is the map\'s result','source numbers forwarded: gaps where packets were dropped')
+m('C01','fastpath-ignores-seqno',R,
+  '\tif !setMarker && newseqno == flags.Seqno && piddelta == 0 {','\tif !setMarker && piddelta == 0 {',
+  'R1.4','unrewritten fast path','shifted packets forwarded unrewritten')
+m('C01','nack-bypasses-map',R,
+  '\t\t\t_, err := track.Write(buf[:l])','\t\t\t_, err := track.write(buf[:l])',
+  'R1.4','nothing bypasses the seqno map','retransmission written with the source number')
+m('C01','map-asks-pid',R,
+  '\tok, newseqno, piddelta := down.packetmap.Map(flags.Seqno, flags.Pid)','\tok, newseqno, piddelta := down.packetmap.Map(flags.Pid, flags.Pid)',
+  'R1.4','Drop and Map are asked about','map consulted with the picture id')
+m('C01','benign-drop-reorder',PM,
+  '\tm.pidDelta += pid - m.nextPid\n\tm.nextPid = pid\n\n\tm.delta--\n\tm.next = seqno + 1\n\treturn true',
+  '\tm.delta -= 1\n\tm.pidDelta += pid - m.nextPid\n\tm.nextPid = pid\n\tnext := seqno + 1\n\tm.next = next\n\treturn true',
+  '','','same transfer function, statements reordered',benign=True)
+m('C01','benign-write-early-return',R,
+  '\tok, newseqno, piddelta := down.packetmap.Map(flags.Seqno, flags.Pid)\n\tif !ok {\n\t\treturn 0, nil\n\t}',
+  '\tmapped, newseqno, piddelta := down.packetmap.Map(flags.Seqno, flags.Pid)\n\tif mapped == false {\n\t\treturn 0, nil\n\t}',
+  '','','renamed result variable and == false',benign=True)
